@@ -376,9 +376,12 @@ def replay_requests(run, col, name, jobs, builds, nproc):
                         col.add("Aligned16", job, b, "stream length %d" % r["len"])
         if job.get("cfg"):
             c = job["cfg"]
+            run.sample({"request": "reorder_encode", "cfg": c, "weights": job.get("gen", {"dist": "literal"})}, limit=5)
             run.nontrivial(("vol", c["trav"], c["bits"], weight_order.UBLOCKS[c["acc"]][1], c["dily"], c["dilx"],
                             c["od"], c["kh"], c["kw"], c["id"], c["oblk"], job.get("gen", {}).get("dist", "lit")))
         else:
+            if len(run.cov["samples"]) < 7:
+                run.cov["samples"].append({"request": "encode(raw)", "id": job_ident(job)})
             run.nontrivial(("raw", job_ident(job)))
     return events, meta, modes
 
